@@ -78,15 +78,20 @@ CaForgets(e) == /\ Bound /\ Step /\ ca[e].exists
                 /\ UNCHANGED <<cfg, img, nextKey, justified>> /\ bad' = {}
 
 (* register_account: newAccount with the current key; an existing account for that key is returned as is. *)
-Registered(c0, i0, e) ==
-    [c2 |-> [c0 EXCEPT ![e] = IF c0[e].exists /\ c0[e].key = i0.cur.id THEN c0[e]
-                               ELSE [exists |-> TRUE, key |-> i0.cur.id, c |-> cfg.c, eab |-> cfg.eab]],
-     i2 |-> [i0 EXCEPT !.ep[e] = [url |-> 1, kH |-> i0.cur.id, cH |-> cfg.c, eH |-> IF cfg.eab # 0 THEN cfg.eab ELSE i0.ep[e].eH]]]
+(* claimC: the contacts fingerprint is recorded as the configuration's.  That is right when the account is created by  *)
+(* this request; when the CA may answer with an account it already holds (re-registration for a new binding while the    *)
+(* contacts changed as well) the fingerprint must wait for the contacts update to be accepted.                             *)
+Registered(c0, i0, e, claimC) ==
+    LET made == ~(c0[e].exists /\ c0[e].key = i0.cur.id) IN
+    [c2 |-> [c0 EXCEPT ![e] = IF made THEN [exists |-> TRUE, key |-> i0.cur.id, c |-> cfg.c, eab |-> cfg.eab] ELSE c0[e]],
+     i2 |-> [i0 EXCEPT !.ep[e] = [url |-> 1, kH |-> i0.cur.id, cH |-> IF claimC THEN cfg.c ELSE i0.ep[e].cH,
+                                   eH |-> IF cfg.eab # 0 THEN cfg.eab ELSE i0.ep[e].eH]]]
 
 (* Account::synchronize on endpoint e, then the newOrder of request_certificate.            *)
 (* A state of the computation is st = [ok, c2 (CA tables), i2 (image), created, upd].        *)
 St0 == [ok |-> TRUE, c2 |-> ca, i2 |-> img, created |-> FALSE, upd |-> 0]
-Reg(st, e) == LET r == Registered(st.c2, st.i2, e) IN [st EXCEPT !.c2 = r.c2, !.i2 = r.i2, !.created = TRUE]
+RegC(st, e, claimC) == LET r == Registered(st.c2, st.i2, e, claimC) IN [st EXCEPT !.c2 = r.c2, !.i2 = r.i2, !.created = TRUE]
+Reg(st, e) == RegC(st, e, TRUE)
 
 (* update_account_key: outer JWS by the superseded key whose fingerprint is stored for e *)
 ApplyK(st, e) ==
@@ -106,7 +111,13 @@ ApplyC(st, e) ==
          THEN [st EXCEPT !.c2[e].c = cfg.c, !.i2.ep[e].cH = cfg.c, !.upd = st.upd + 1]
          ELSE [st EXCEPT !.ok = FALSE, !.upd = st.upd + 1]       \* the CA cannot verify the signature
 
-Sync(e) ==
+(* the CA may refuse a contacts update it could verify (invalidContact, unsupportedContact, policy): nothing changes *)
+ApplyCR(st, e, refuse) ==
+    IF refuse /\ st.ok /\ st.c2[e].exists /\ st.c2[e].key = st.i2.cur.id
+    THEN [st EXCEPT !.ok = FALSE, !.upd = st.upd + 1]
+    ELSE ApplyC(st, e)
+
+Sync(e, refuse) ==
     LET ep == img.ep[e]
         cc == ep.cH # cfg.c           \* both flags are computed once, before any request
         kc == ep.kH # img.cur.id
@@ -114,26 +125,33 @@ Sync(e) ==
        ELSE IF cfg.eab # 0 /\ ep.eH # cfg.eab
             THEN \* registered again for the new binding; the CA answers with the existing account if it knows the key,
                  \* so changed contacts still have to be sent
-                 LET a == Reg(St0, e) IN
-                 IF cc /\ "EabReRegisterSkipsContacts" \notin Deviations THEN ApplyC(a, e) ELSE a
+                 LET a == RegC(St0, e, ~cc \/ "ReRegisterClaimsContacts" \in Deviations) IN
+                 IF cc /\ "EabReRegisterSkipsContacts" \notin Deviations THEN ApplyCR(a, e, refuse) ELSE a
        ELSE IF "ContactsBeforeKey" \in Deviations
             THEN LET a == IF cc THEN ApplyC(St0, e) ELSE St0 IN IF kc THEN ApplyK(a, e) ELSE a
-            ELSE LET a == IF kc THEN ApplyK(St0, e) ELSE St0 IN IF cc THEN ApplyC(a, e) ELSE a
+            ELSE LET a == IF kc THEN ApplyK(St0, e) ELSE St0
+                     b == IF cc THEN ApplyCR(a, e, refuse) ELSE a
+                 IN \* deviation: the account file is written once, after the last request of the synchronisation -
+                    \* a roll-over the CA accepted is forgotten when the contacts update that follows it fails
+                    IF "KeyHashSavedWithContacts" \in Deviations /\ kc /\ cc /\ ~b.ok THEN [b EXCEPT !.i2 = img] ELSE b
 
 (* Is the CA in a position to follow?  (it knows nothing, or holds the key whose fingerprint is stored) *)
 CanConverge(e) == ~ca[e].exists \/ ca[e].key = img.ep[e].kH \/ img.ep[e].url = NoVal
 
 Renew(e) ==
     /\ Bound /\ Step
-    /\ LET s == Sync(e)
+    /\ \E refuse \in BOOLEAN :
+       LET s == Sync(e, refuse)
            \* newOrder with kid: an account the CA does not know (any more) is registered again, once
            needReg == s.ok /\ ~s.c2[e].exists
            fin == IF needReg THEN Reg(s, e) ELSE s
            ok == fin.ok /\ fin.c2[e].exists /\ fin.c2[e].key = fin.i2.cur.id
        IN /\ ca' = fin.c2 /\ img' = fin.i2
           /\ bad' = Chk("C11_InStepAfterRenew",
-                        /\ CanConverge(e) => ok
+                        /\ (CanConverge(e) /\ ~refuse) => ok
                         /\ ok => fin.c2[e].c = cfg.c)
+                 \* whatever the outcome, the key recorded for e is the key the CA holds (every answer was delivered here)
+                 \cup Chk("C11_RollOverByRecordedKey", (CanConverge(e) /\ fin.c2[e].exists /\ fin.i2.ep[e].url # 0) => fin.c2[e].key = fin.i2.ep[e].kH)
                  \cup Chk("C11_EndpointsIndependent", \A o \in Endpoints \ {e} : fin.i2.ep[o] = img.ep[o] /\ fin.c2[o] = ca[o])
                  \cup Chk("C11_OneUpdatePerItem", fin.upd <= 2)
     /\ UNCHANGED <<cfg, nextKey, justified>>
